@@ -104,7 +104,7 @@ def nontrivial_perm(case):
 
 
 # ---------------------------------------------------------------- property runner
-def run_leaf_property(res, tag, gen, nontrivial, defs=(), extra_rounds=3):
+def run_leaf_property(res, tag, gen, nontrivial, defs=(), extra_rounds=3, post=None):
     """common flow: proofs, builds, differential run, oracle, violation decision"""
     pid = res.pid
     st = C.property_status(pid)
@@ -181,6 +181,8 @@ def run_leaf_property(res, tag, gen, nontrivial, defs=(), extra_rounds=3):
                                first_mismatch=(dict(case=cases[mism[0]], impl=impl[mism[0]] if mism[0] < len(impl) else None,
                                                     model=model[mism[0]] if mism[0] < len(model) else None) if mism else None),
                                theorems=st["theorems"], tag=tag, defs=list(defs)), nofail=True)
+    if post is not None:
+        post(res)
     return res.finish()
 
 
